@@ -2,6 +2,7 @@
    per line.  Only statements; every proof is [exact <lemma>]. *)
 From AL Require Import Base.Str Out.Render Out.RenderProofs Out.Matcher Out.MatcherProofs Out.Messages Out.MessagesProofs.
 From Coq Require Import ZArith.
+From AL Require Gen.GenFormats Out.FormatArgs.
 
 (* the header is file:line:col: message [kind], and PrettyPrint's pieces make up exactly it *)
 Theorem C16_header_format : forall e,
@@ -93,3 +94,12 @@ Theorem C16_messages_single_line_partial : forall ip ps,
   Forall piece_safe ps -> no_nl (sprintf ip ps).
 Proof. exact messages_single_line. Qed.
 Print Assumptions C16_messages_single_line_partial.
+
+(* what the diagnostics print without quoting: every %s / %v verb of every diagnostic format of
+   the source (re-listed on every run, Gen/GenFormats.v) prints a value built by a quoting
+   function, a fixed word, a position, a number, a library error text, or something that belongs
+   to the person running actionlint — never a string taken from the workflow as it is *)
+Theorem C16_unquoted_arguments_are_known : forall a, In a GenFormats.format_args ->
+  exists c, In (a, c) FormatArgs.allowed.
+Proof. exact FormatArgs.format_args_known. Qed.
+Print Assumptions C16_unquoted_arguments_are_known.
